@@ -78,14 +78,15 @@ func vrIdent(b []byte) [2]int {
 
 // scripted source: the k-th call returns exactly reads[k] bytes (0 = end of input: (0, io.EOF))
 type vrScript struct {
-	data   []byte
-	reads  []int
-	k      int
-	off    int
-	scopes []int
-	anom   []string
-	choose func(s *vrScript, room int) int // random mode: decides the size of this read
-	got    []int
+	data    []byte
+	reads   []int
+	k       int
+	off     int
+	scopes  []int
+	anom    []string
+	choose  func(s *vrScript, room int) int // random mode: decides the size of this read
+	got     []int
+	idleRun int
 }
 
 func (s *vrScript) note(f string, a ...interface{}) {
@@ -100,6 +101,14 @@ func (s *vrScript) Read(p []byte) (int, error) {
 	n := 0
 	if s.choose != nil {
 		if rem > 0 {
+			// now and then a read that brings nothing and reports no error (io.Reader allows it; feed retries):
+			// recorded as -1, at most two in a row
+			if s.idleRun < 2 && (len(s.scopes)*7+len(s.data))%11 == 3 {
+				s.idleRun++
+				s.got = append(s.got, -1)
+				return 0, nil
+			}
+			s.idleRun = 0
 			n = s.choose(s, util.Min(len(p), rem))
 		}
 	} else if s.k < len(s.reads) {
